@@ -3,3 +3,13 @@ BUILT['C01'] = {
     'level': 'Runtime monitoring: every generated chain of 2-4 layers is executed by the real library (MergeDocument, Documents, Output) and a sample by the bkl binary; an independent executable statement of the documented merge rules runs next to it and must agree on accept/reject and on the merged tree after every layer. Holds only for the executions produced (tens of thousands quick, >1M thorough); says nothing about inputs not generated.',
     'note': 'Trusted: the reference merge model (harness/bv/model.py), the generators, the Go worker protocol. Regions the statement leaves open are skipped and counted (labels skipped:*).',
 }
+BUILT['C06'] = {
+    'technique': 'identity / escape / layered-escape monitors over generated $-rich trees (in-process worker + CLI sample)',
+    'level': 'Runtime monitoring: every generated tree over the property\'s alphabet is evaluated by the real library; plain trees must come back unchanged (minus nulls), trees with every $ doubled must come back as the original, and a doubled tree layered over a $-free parent must give the unescaped documented merge. Holds for the executions produced only.',
+    'note': 'Trusted: generators, merge model for the layered variant, JSON decoding of outputs. Unterminated $" strings: identity or error both accepted.',
+}
+BUILT['C07'] = {
+    'technique': 'marker-injection monitor with reference merge/$output model + universal output scan (in-process worker + YAML-file/CLI sample with anchors)',
+    'level': 'Runtime monitoring: markers ($required, misplaced/misspelt/ill-typed directives) are injected into generated layer chains; the model says whether a marker ends up in an output document; the real evaluation must fail exactly then (with the required-field error for $required alone) and every successful output is scanned for $+lowercase strings. Holds for the executions produced only.',
+    'note': 'Trusted: merge and $output models, marker catalogue (markers that can never be valid where injected). Cases where an upper layer edits a directive into a possibly valid one are skipped; hidden-only markers that still fail are counted, not judged.',
+}
